@@ -12,6 +12,8 @@ import (
 
 func init() {
 	register("E4", "the error of every call that writes output is returned to the caller, never dropped and never raised as a panic", runE4)
+	register("E4p", "the error of a call that writes output is never raised as a panic", func(p *an.Prog, r *an.Result) { e4Core(p, r, "panic") })
+	register("E4i", "on the include path (the include renderer, RenderFile, the tag node) the error of every call that writes or renders is returned", func(p *an.Prog, r *an.Result) { e4Core(p, r, "include") })
 	register("E5", "every function or interface method that is handed an io.Writer and uses it can report failure (has an error result)", runE5)
 }
 
@@ -207,12 +209,23 @@ func flowOfError(e ssa.Value) errFlow {
 	return f
 }
 
-func runE4(p *an.Prog, r *an.Result) {
+func runE4(p *an.Prog, r *an.Result) { e4Core(p, r, "all") }
+
+// e4Core: mode "all" = the full rule; "panic" = only errors raised as panics are reported;
+// "include" = the full rule restricted to the functions on the include path.
+func e4Core(p *an.Prog, r *an.Result, mode string) {
+	includePath := map[string]bool{"(render.rendererContext).RenderFile": true, "(*render.TagNode).render": true}
+	if roles := GetRoles(p); tagByName(roles, "include") != nil && tagByName(roles, "include").Renderer != nil {
+		includePath[an.FuncName(tagByName(roles, "include").Renderer)] = true
+	}
 	for _, fn := range p.Funcs {
 		if isMainPkg(fn) {
 			continue
 		}
 		name := an.FuncName(fn)
+		if mode == "include" && !includePath[name] {
+			continue
+		}
 		an.EachCall(fn, func(ci ssa.CallInstruction) {
 			c := ci.Common()
 			wb, ei := writeBearing(c)
@@ -224,15 +237,29 @@ func runE4(p *an.Prog, r *an.Result) {
 			construct := "error of " + callee
 			call, isCall := ci.(*ssa.Call)
 			if !isCall {
-				r.Bad(name, construct, ci.Pos(), "a write is deferred or started as a goroutine: its error cannot be returned")
+				if mode != "panic" {
+					r.Bad(name, construct, ci.Pos(), "a write is deferred or started as a goroutine: its error cannot be returned")
+				}
 				return
 			}
 			ev := errorValueOf(call, ei)
 			if ev == nil {
-				r.Bad(name, construct, ci.Pos(), fmt.Sprintf("%s discards the error result of %s: a failing writer goes unnoticed and the render reports success", name, callee))
+				if mode != "panic" {
+					r.Bad(name, construct, ci.Pos(), fmt.Sprintf("%s discards the error result of %s: a failing writer goes unnoticed and the render reports success", name, callee))
+				} else {
+					r.Triv(name, construct, ci.Pos(), "not raised as a panic")
+				}
 				return
 			}
 			fl := flowOfError(ev)
+			if mode == "panic" {
+				if fl.panicked {
+					r.Bad(name, construct, ci.Pos(), fmt.Sprintf("%s raises the error of %s as a panic (%s) instead of returning it", name, callee, p.Pos(fl.toPanic)))
+				} else {
+					r.OK(name, construct, ci.Pos(), "never flows into a panic")
+				}
+				return
+			}
 			switch {
 			case !fl.used:
 				r.Bad(name, construct, ci.Pos(), fmt.Sprintf("%s never looks at the error of %s: a failing writer goes unnoticed", name, callee))
@@ -245,7 +272,11 @@ func runE4(p *an.Prog, r *an.Result) {
 			}
 		})
 	}
-	r.Floor("write-bearing calls", 25)
+	if mode == "include" {
+		r.Floor("write-bearing calls", 3)
+	} else {
+		r.Floor("write-bearing calls", 25)
+	}
 }
 
 func runE5(p *an.Prog, r *an.Result) {
